@@ -1,8 +1,8 @@
 CONSTANTS
   T = {t1, t2, t3}
   Intervals = {1, 2, 3}
-  MaxNow = 7
-  MaxAdv = 4
+  MaxNow = 6
+  MaxAdv = 3
   MaxCbOps = 1
   Variant = "intended"
 SPECIFICATION Spec
